@@ -137,11 +137,16 @@ pub fn gen_verdict_case_with(t: &mut Tape, force: Option<u64>) -> VerdictCase {
         next_slot += 1;
         table.push(f);
     }
+    // a quarter of the roots reserve further slots with a declared table size
+    let natural = |funcs: &Vec<Func>| vft_slots(&Vft { size: None, funcs: funcs.clone() }).len;
+    let root_size = if t.chance(1, 4) { Some(natural(&table) + 1 + t.below(3)) } else { None };
+    // length of the table the next level has to restate
+    let mut base_len = root_size.unwrap_or(natural(&table));
     m.items.push(Item::Type(TypeDef {
         vis: true,
         name: "L0".into(),
         packed: true,
-        vft: Some(Vft { size: None, funcs: table.clone() }),
+        vft: Some(Vft { size: root_size.map(|s| Num::d(s as i128)), funcs: table.clone() }),
         fields: vec![Field::new("x", Ty::n("u32")), Field::new("pad", Ty::Unk(w - 4))],
         ..Default::default()
     }));
@@ -162,10 +167,17 @@ pub fn gen_verdict_case_with(t: &mut Tape, force: Option<u64>) -> VerdictCase {
         let mut block = table.clone();
         // extend
         let extra = t.below(3);
-        for _ in 0..extra {
+        for e in 0..extra {
             counter += 1;
-            block.push(rand_vfunc(t, format!("v{counter}")));
+            let mut f = rand_vfunc(t, format!("v{counter}"));
+            // the first new function goes behind the slots the base reserves
+            if e == 0 && base_len > natural(&table) {
+                f.index = Some(Num::d(base_len as i128));
+            }
+            block.push(f);
         }
+        // a block that ends before the base table does restates the reserved slots with a size
+        let mut own_size = if natural(&block) < base_len { Some(base_len) } else { None };
         let mut own_block = Some(block.clone());
         if !last && t.chance(1, 3) {
             own_block = None; // inherits the table unchanged
@@ -173,7 +185,11 @@ pub fn gen_verdict_case_with(t: &mut Tape, force: Option<u64>) -> VerdictCase {
         if last {
             // one mutation of the compatible prefix (or none)
             let k = t.below(table.len().max(1) as u64) as usize;
-            let drawn = t.below(10);
+            let mut drawn = t.below(11);
+            // 10: the declared size that restates the base's reserved slots is dropped (only when there is one)
+            if drawn == 10 && own_size.is_none() {
+                drawn = 0;
+            }
             // nothing to mutate in an empty base table
             let choice = if table.is_empty() { 0 } else { force.unwrap_or(drawn) };
             let b = own_block.as_mut().unwrap();
@@ -246,6 +262,10 @@ pub fn gen_verdict_case_with(t: &mut Tape, force: Option<u64>) -> VerdictCase {
                         }
                     }
                 }
+                10 => {
+                    own_size = None;
+                    mutation = "reserved base slots not restated".into();
+                }
                 _ => {
                     // spelling the default convention explicitly is not a change
                     if b[k].cc.is_none() {
@@ -268,12 +288,13 @@ pub fn gen_verdict_case_with(t: &mut Tape, force: Option<u64>) -> VerdictCase {
             vis: true,
             name: format!("L{level}"),
             packed: true,
-            vft: own_block.clone().map(|funcs| Vft { size: None, funcs }),
+            vft: own_block.clone().map(|funcs| Vft { size: own_size.map(|s| Num::d(s as i128)), funcs }),
             fields,
             ..Default::default()
         }));
         if let Some(b) = own_block {
             if !last {
+                base_len = own_size.unwrap_or(natural(&b)).max(natural(&b));
                 table = b;
             }
         }
@@ -292,7 +313,7 @@ impl Prop for Verdict_ {
         "C06/verdict".into()
     }
     fn rule(&self) -> String {
-        "chains of depth 1-4 over a root with a 0-4 slot table (index gaps, all seven conventions, 0-3 parameters of integer, *const/*mut (also to the root type, two levels deep, to arrays) and small array types, optional return), optional second base with its own table, intermediate levels extending or inheriting the table; the last level's own block is the compatible prefix (+0-2 new slots) with at most one mutation: renamed slot, receiver flipped, one parameter's type changed in one place (leaf, pointer kind, array length, one level of indirection; any parameter), return type added/removed/changed the same way, calling convention changed to a different effective one, last base slot missing, two differing slots swapped; controls: no mutation, default convention spelled out. Oracle: Ok iff no mutation. Every case is non-trivial (depth >= 2, or >= 2 bases, or a mutation)".into()
+        "chains of depth 1-4 over a root with a 0-4 slot table (index gaps, all seven conventions, 0-3 parameters of integer, *const/*mut (also to the root type, two levels deep, to arrays) and small array types, optional return), optional second base with its own table, intermediate levels extending or inheriting the table; the last level's own block is the compatible prefix (+0-2 new slots) with at most one mutation: renamed slot, receiver flipped, one parameter's type changed in one place (leaf, pointer kind, array length, one level of indirection; any parameter), return type added/removed/changed the same way, calling convention changed to a different effective one, last base slot missing, two differing slots swapped, the size that restates slots reserved by the base's #[size] dropped; controls: no mutation, default convention spelled out. Oracle: Ok iff no mutation. Every case is non-trivial (depth >= 2, or >= 2 bases, or a mutation)".into()
     }
     fn gen(&self, t: &mut Tape) -> VerdictCase {
         gen_verdict_case(t)
